@@ -52,9 +52,12 @@ def props_of_disagreement(line):
         p = ['C18']
         if 'Inc' in (ref, real): p.append('C10')
         return p
-    if ref == 'Good': p = ['C03'] + (['C02'] if real == 'Inc' else [])      # a well-formed item is rejected / never completes / decoded differently
+    # C02 (segmentation independence) is a statement about TWO runs; a single-input disagreement with the grammar does not show it
+    # (a parser that decides too early may decide the same way on every extension). C02 is attributed by `search`, which compares
+    # the segmented with the unsegmented run of the same stream.
+    if ref == 'Good': p = ['C03']                                            # a well-formed item is rejected / never completes / decoded differently
     elif ref == 'Bad': p = ['C09']                                           # a malformed item is accepted (fabricated data) or waits for more input
-    else: p = ['C02', 'C03']                                                 # decides on a proper prefix: the result depends on the segmentation
+    else: p = ['C03']                                                        # decides on a proper prefix of an item
     return p
 
 
